@@ -21,6 +21,7 @@
     code_call_reported code_literal_call_reported code_reported_is_call code_reported_exactly nested_call_was_missed
     code_call_sites_extracted code_list_is_call_sites
     lookups_subset_extract_args identity_transparent_msg_skip skip_generalises_reorder
+    branch_directive_ids_mismatch
 -/
 import Genshi.Lemmas.I18nTree
 import Genshi.Lemmas.I18nStarts
@@ -987,6 +988,25 @@ example :
        .end_ ⟨[], ['s','c','r','i','p','t']⟩,
        .text ['!']] := by
   refine ⟨by decide +kernel, by decide +kernel, by decide +kernel, by decide +kernel, by decide +kernel, by decide +kernel⟩
+
+/-- finding C19-branch-directives (wave 4): a control-flow directive on a choose BRANCH.
+    `<div i18n:choose="n"><p i18n:singular="">one</p><p i18n:plural="" py:if="c">many</p></div>`:
+    the loop of `ChooseDirective.extract` over the directives of the branch's SUB event lets the
+    `py:if` append the whole branch to BOTH buffers as a nested element, so extraction reports the
+    ids `one[1:many]` / `many[1:many]`, while rendering hands `one` / `many` to `ngettext`
+    (`ChooseDirective.__call__` applies the directives of a branch in order).  The streams of
+    `lookups_subset_extract_partial` keep such branches out (`GoodChoose`: a branch carries
+    `i18n:singular` / `i18n:plural`, optionally `py:strip`). -/
+theorem branch_directive_ids_mismatch :
+    extract Cfg.default
+      [.sub [.choose []]
+        [.start ⟨[], ['d','i','v']⟩ [],
+         .sub [.singular] [.start ⟨[], ['p']⟩ [], .text ['o','n','e'], .end_ ⟨[], ['p']⟩],
+         .sub [.plural, .other ['i','f']] [.start ⟨[], ['p']⟩ [], .text ['m','a','n','y'], .end_ ⟨[], ['p']⟩],
+         .end_ ⟨[], ['d','i','v']⟩]] =
+      .ok [⟨some ['n','g','e','t','t','e','x','t'],
+            .many [some ['o','n','e','[','1',':','m','a','n','y',']'], some ['m','a','n','y','[','1',':','m','a','n','y',']']], []⟩] := by
+  decide +kernel
 
 /-- **identity_transparent, plural choice** (`ChooseDirective.__call__` with
     `ChooseBranchDirective.__call__`).  For `pre <ts i18n:singular>Fs</ts> mid
